@@ -28,6 +28,7 @@ import LinVerif.Lemmas.C09Kv
 import LinVerif.Lemmas.C09KvLookup
 import LinVerif.Lemmas.C09KvStale
 import LinVerif.Lemmas.C09Compact
+import LinVerif.Lemmas.C09SeriesStable
 import LinVerif.Lemmas.C09Hist
 import LinVerif.Lemmas.C09Blocks
 import LinVerif.Lemmas.C09Buf
@@ -1134,6 +1135,55 @@ example :
     (nd'.shards 0).minv.disk.length = 2 ∧ (nd'.shards 0).minv.cur.length = 1 ∧
     (nd'.shards 0).createSeriesID 0 = 3 ∧ (nd'.genSeries c 0 0 4 []).2 = .id 3 ∧
     (nd'.shards 0).series.lookup 0 3 = some 2 := by decide
+
+/-- **a series keeps its id for as long as the node runs, whatever happens in between**: after any history
+`pre` (crashes and reopen included) a caller is answered `i` for tag set `ts` of metric `m`; then any stretch
+`post` of history in which the node does not restart — get-or-create calls of every kind, PrepareFlush / Flush of
+both databases, failed metadata flushes, index flushes in which any step fails (retried or not), refused metric
+names, evictions from the LRU sequence cache — and every later caller for that tag set is answered `i`, and the
+call changes nothing. (`stable` above is this statement for histories of `Op`s; here the history may contain
+faulted index flushes, refusals and evictions.) -/
+theorem series_stable_over_fault_histories (c : Cfg) (hc : c.seriesLimitFirst = true) (hp : c.prepareSwapsEmpty = true)
+    (ha : c.indexFlushAborts = true) (lim : Limits) (n : Nat) (pre post : List FOp)
+    (hrun : ∀ op ∈ post, FOp.sameRun op = true) (sh m ts i : Nat) (tags tags' : List (Nat × Nat))
+    (h : ((frun c [0, 1, 2, 3] { lim := lim, nShards := n } pre).genSeries c sh m ts tags).2 = .id i) :
+    (frun c [0, 1, 2, 3] { lim := lim, nShards := n } (pre ++ .op (.series sh m ts tags) :: post)).genSeries c sh m ts tags' =
+      (frun c [0, 1, 2, 3] { lim := lim, nShards := n } (pre ++ .op (.series sh m ts tags) :: post), .id i) := by
+  have cov := cover_reachable c hc hp ha lim n (pre ++ [.op (.series sh m ts tags)])
+  have fl := nodeFlags_frun hc hp ha (pre ++ [.op (.series sh m ts tags)]) (nodeFlags_init lim n)
+  have hsplit : pre ++ .op (.series sh m ts tags) :: post = (pre ++ [.op (.series sh m ts tags)]) ++ post := by simp
+  rw [hsplit, frun_append]
+  have h1 : frun c [0, 1, 2, 3] { lim := lim, nShards := n } (pre ++ [.op (.series sh m ts tags)]) =
+      ((frun c [0, 1, 2, 3] { lim := lim, nShards := n } pre).genSeries c sh m ts tags).1 := by
+    rw [frun_append]; rfl
+  have hl : ((frun c [0, 1, 2, 3] { lim := lim, nShards := n } (pre ++ [.op (.series sh m ts tags)])).shards sh).series.lookup m ts = some i := by
+    rw [h1]; exact genSeries_id_lookup hc _ sh m ts tags i h
+  exact genSeries_of_lookup c _ sh m ts tags' i (lookup_frun hc hp ha post cov fl hrun sh m ts i hl)
+
+/-- non-vacuity of `series_stable_over_fault_histories`: the stretch contains a faulted flush, the retry round, an
+eviction, other series, and the series asked for again keeps id 1 (its entry has moved from the mutable table
+through the frozen one into the kv family meanwhile) -/
+example :
+    let c : Cfg := { seriesLimitFirst := true, prepareSwapsEmpty := true }
+    let pre : List FOp := [.op (.series 0 0 1 []), .op .reopen, .op (.series 0 0 1 [])]
+    let post : List FOp := [.op (.indexPrepare 0), .indexFlushFault 0 0, .op (.series 0 0 3 []), .evictSeq 0 0,
+      .op (.indexPrepare 0), .op (.indexFlush 0), .op (.series 0 0 4 [])]
+    (∀ op ∈ post, FOp.sameRun op = true) ∧
+    ((frun c [0, 1, 2, 3] {} pre).genSeries c 0 0 2 [(1, 1)]).2 = .id 1 ∧
+    ((frun c [0, 1, 2, 3] {} (pre ++ .op (.series 0 0 2 [(1, 1)]) :: post)).genSeries c 0 0 2 []).2 = .id 1 ∧
+    ((frun c [0, 1, 2, 3] {} (pre ++ .op (.series 0 0 2 [(1, 1)]) :: post)).shards 0).series.disk 0 2 = some 1 := by decide
+
+namespace Neg
+
+/-- why `series_stable_over_fault_histories` excludes restarts from `post`: a series that was never flushed is
+gone after a reopen, and the id it had goes to the next new series (this is what the property allows: "every name
+FOUND in the recovered dictionaries has the id it had before") -/
+theorem series_not_stable_across_restart :
+    let c : Cfg := { seriesLimitFirst := true, prepareSwapsEmpty := true }
+    let nd := frun c [0, 1, 2, 3] {} [.op (.series 0 0 1 []), .op .reopen]
+    (nd.genSeries c 0 0 2 []).2 = .id 0 ∧ ((nd.genSeries c 0 0 2 []).1.genSeries c 0 0 1 []).2 = .id 1 := by decide
+
+end Neg
 
 /-- **the miss branch reads all three tiers** (regenerated from `invertedIndex.getSeriesIDs` and
 `findSeriesIDsByKeyFromMem`): the memory tables — `ii.mutable`, then `ii.immutable` — and then the kv family's
